@@ -115,6 +115,8 @@ type Options struct {
 	SkipInit bool
 	// InitialHeight for InitChain (0 → 1).
 	InitialHeight int64
+	// NoFirstBlock: do not run the empty first block (replicas replay it).
+	NoFirstBlock bool
 }
 
 // Tx is one transaction to deliver.
@@ -171,6 +173,7 @@ type Chain struct {
 	opts    Options
 
 	snaps   map[string]any
+	rec     *recorder
 	snapErr string
 	halted  bool
 }
@@ -215,6 +218,11 @@ func newApp(c *Chain, db *dbm.MemDB, opts Options) *simapp.SimApp {
 	// our options run, so the app is built unsealed (loadLatest=false), the
 	// observation handler installed, and the latest version loaded afterwards.
 	app := simapp.NewSimApp(log.NewNopLogger(), db, nil, false, dep, appOptions, bopts...)
+	// providers that need the application instance (store keys change on every
+	// NewSimApp, i.e. on every restart) bind themselves here
+	if b, ok := evm.(interface{ BindApp(*simapp.SimApp) }); ok {
+		b.BindApp(app)
+	}
 	if !opts.NoPostHandler {
 		app.SetPostHandler(c.postHandler)
 	}
@@ -316,6 +324,10 @@ func New(opts Options) *Chain {
 		panic(fmt.Errorf("InitChain: %w", err))
 	}
 	c.Height = ih - 1
+	c.rec = newRecorder(c, ih)
+	if opts.NoFirstBlock {
+		return c
+	}
 	// block 1: empty, commits the genesis branch
 	r := c.RunBlock(0, nil)
 	if r.Halt {
@@ -499,6 +511,9 @@ func (c *Chain) RunBlock(dt time.Duration, txs []Tx) (res BlockResult) {
 	}
 	c.snaps = map[string]any{}
 	c.snapErr = ""
+	if c.rec != nil {
+		c.rec.block(h, t, raw)
+	}
 	var fin *abci.ResponseFinalizeBlock
 	func() {
 		defer func() {
@@ -591,6 +606,9 @@ func (c *Chain) Authority(msg sdk.Msg) (ok bool, panicked bool, log string) {
 		if err := vb.ValidateBasic(); err != nil {
 			return false, false, "validate_basic: " + err.Error()
 		}
+	}
+	if c.rec != nil {
+		c.rec.authority(c, msg)
 	}
 	handler := c.App.MsgServiceRouter().Handler(msg)
 	if handler == nil {
@@ -696,4 +714,74 @@ func (c *Chain) storeNames() []string {
 	}
 	sort.Strings(names)
 	return names
+}
+
+// RawResult is what a raw block did (replica runs).
+type RawResult struct {
+	Halt    bool
+	HaltMsg string
+	AppHash []byte
+	Txs     []*abci.ExecTxResult
+}
+
+// RunRawBlock executes a recorded block byte-for-byte.
+func (c *Chain) RunRawBlock(height int64, t time.Time, raw [][]byte) (res RawResult) {
+	if c.halted {
+		return RawResult{Halt: true, HaltMsg: "chain already halted"}
+	}
+	func() {
+		defer func() {
+			if r := recover(); r != nil {
+				res.Halt = true
+				res.HaltMsg = fmt.Sprint("panic: ", r)
+			}
+		}()
+		fin, err := c.App.FinalizeBlock(&abci.RequestFinalizeBlock{Height: height, Time: t, Txs: raw, Hash: blockHash(height)})
+		if err != nil {
+			res.Halt, res.HaltMsg = true, "FinalizeBlock: "+err.Error()
+			return
+		}
+		if _, err = c.App.Commit(); err != nil {
+			res.Halt, res.HaltMsg = true, "Commit: "+err.Error()
+			return
+		}
+		res.AppHash = fin.AppHash
+		res.Txs = fin.TxResults
+	}()
+	if res.Halt {
+		c.halted = true
+		return res
+	}
+	c.Height, c.Time = height, t
+	return res
+}
+
+// AuthorityJSON replays a recorded authority message (codec JSON of the Any).
+func (c *Chain) AuthorityJSON(js string) (ok bool, panicked bool, log string) {
+	var msg sdk.Msg
+	if err := c.App.AppCodec().UnmarshalInterfaceJSON([]byte(js), &msg); err != nil {
+		return false, false, "decode: " + err.Error()
+	}
+	return c.Authority(msg)
+}
+
+// ExportGenesis exports the application state as genesis JSON from a cache
+// branch of the committed state (nothing is written).  With zeroHeight the
+// irismod modules' own PrepForZeroHeightGenesis steps run first, as an
+// application does before a restart export.
+func (c *Chain) ExportGenesis(zeroHeight bool, prep func(ctx sdk.Context)) (out map[string]json.RawMessage, err error) {
+	defer func() {
+		if r := recover(); r != nil {
+			err = fmt.Errorf("export panic: %v", r)
+		}
+	}()
+	ctx, _ := c.Ctx().CacheContext()
+	if zeroHeight && prep != nil {
+		prep(ctx)
+	}
+	gs, e := c.App.ModuleManager.ExportGenesisForModules(ctx, c.App.AppCodec(), nil)
+	if e != nil {
+		return nil, e
+	}
+	return gs, nil
 }
